@@ -191,6 +191,31 @@ func checkRay3(c *kase, s *subject3, o, d V3) {
 		c.Violate(key("RayCollisions", "count-nil-callback"), base, "count with nil callback %d != count with callback %d", n2, n1)
 	}
 
+	// The answer for a ray is a function of the collider and the ray only: a callback that casts
+	// secondary rays at the same collider (the shadow-ray pattern) must not change what the outer
+	// query reports.
+	if len(got) > 0 && c.Rng.Intn(3) == 0 && pan == nil {
+		var again []model3d.RayCollision
+		n3 := s.coll.RayCollisions(ray, func(rc model3d.RayCollision) {
+			again = append(again, rc)
+			p := ray.Origin.Add(ray.Direction.Scale(rc.Scale))
+			sec := &model3d.Ray{Origin: p.Add(rc.Normal.Scale(1e-3 * size)), Direction: model3d.XYZ(c.Rng.NormFloat64(), c.Rng.NormFloat64(), c.Rng.NormFloat64())}
+			s.coll.FirstRayCollision(sec)
+			s.coll.RayCollisions(sec, nil)
+			s.coll.SphereCollision(p, 0.1*size)
+		})
+		c.Count("clause.reentrant_callback", 1)
+		same := n3 == n1 && len(again) == len(got)
+		for i := 0; same && i < len(got); i++ {
+			same = again[i].Scale == got[i].Scale && (s.normal == normApprox || again[i].Normal == got[i].Normal)
+		}
+		if !same {
+			w := base()
+			w["with_secondary_queries"] = describeHits(again)
+			c.Violationf(key("RayCollisions", "same-result-when-the-callback-queries-the-collider"), w, "the same ray reported %d hits, then %d different hits when the callback cast secondary rays at the same collider", n1, n3)
+		}
+	}
+
 	dn := d.Norm()
 	onTol := tolOnSurface * size
 	if s.approxEps > 0 {
